@@ -16,8 +16,9 @@ import Dashu.Props.GenNextPow2
 import Dashu.Props.GenIntBits
 import Dashu.Props.GenShiftDispatch
 import Dashu.Props.C09BitLen
+import Dashu.Props.C09Arith
 /-! C09: axioms of every theorem of the Tie-A / link theorem modules of the property in ONE file (one Lean start instead of
-    eight): Props/{GenBits, GenIntOps, GenMath, GenBitsSmall, C09Shift, GenShift, GenBitsPrim, GenScans, GenBitsMixed, GenShiftHeap, GenBitsHeap, GenBitOpsHeap, GenReprOnes, GenBitDispatch, GenNextPow2, GenIntBits, GenShiftDispatch, C09BitLen}.  The per-module audit
+    eight): Props/{GenBits, GenIntOps, GenMath, GenBitsSmall, C09Shift, GenShift, GenBitsPrim, GenScans, GenBitsMixed, GenShiftHeap, GenBitsHeap, GenBitOpsHeap, GenReprOnes, GenBitDispatch, GenNextPow2, GenIntBits, GenShiftDispatch, C09BitLen, C09Arith}.  The per-module audit
     files stay (other properties use some of them); this file lists the same theorems with fully qualified names. -/
 #print axioms Dashu.Props.GenBits.gen_ibig_bitand
 #print axioms Dashu.Props.GenBits.gen_ibig_bitor
@@ -183,3 +184,12 @@ import Dashu.Props.C09BitLen
 #print axioms Dashu.Props.C09BitLen.specK_meets_bit_len
 #print axioms Dashu.Props.C09BitLen.modelK_meets_bit_len
 #print axioms Dashu.Props.C09BitLen.model_ibig_bit_len
+#print axioms Dashu.Props.C09Arith.scanon_is_wf
+#print axioms Dashu.Props.C09Arith.neg_is_not_plus_one
+#print axioms Dashu.Props.C09Arith.sub_is_add_not_plus_one
+#print axioms Dashu.Props.C09Arith.not_is_neg_minus_one
+#print axioms Dashu.Props.C09Arith.not_not_and_not_neg
+#print axioms Dashu.Props.C09Arith.neg_bits
+#print axioms Dashu.Props.C09Arith.and_plus_or_is_add
+#print axioms Dashu.Props.C09Arith.xor_plus_carries_is_add
+#print axioms Dashu.Props.C09Arith.neg_of_int
